@@ -1,3 +1,270 @@
-/- Model for C09: not written yet -/
+/-
+C09 — cross-namespace isolation.
+
+Model of
+  * pkg/controller/services/cache.go: `buildResourceName` (over client-go's
+    `SplitMetaNamespaceKey`), `getContentProtocol`, and the five getters `GetService`,
+    `GetTLSSecretPath`, `GetCASecretPath`, `GetPasswdSecretContent`, `GetDHSecretPath` with
+    the permission bit each one passes;
+  * pkg/converters/ingress/annotations: `validateAllowDeny`, `buildGlobalDynamic`
+    (global.go), `ConfigValue.NamespacedName` (mapper.go) and the REFERENCE SITES: how each
+    configuration key that accepts a resource name derives `(defaultNamespace, name)` from
+    `(namespace of the annotated object, value)` — ingress.go `addTLS`, host.go
+    `setAuthTLSConfig`, backend.go `buildBackendProtocol` (secure-crt-secret,
+    secure-verify-ca-secret), `buildBackendAuthHTTP` (auth-secret, with the userlist reuse),
+    `setAuthExternal` + ingress.go's pre-built auth backend (auth-url svc://).
+Strings are `List Char` so that every function is structurally recursive and `decide` can
+evaluate concrete witnesses.  Core-only.
+-/
 namespace HapVerif.C09
+
+abbrev Str := List Char
+
+/-- `strings.Split(s, "/")` -/
+def splitSlash : Str → List Str
+  | [] => [[]]
+  | c :: cs =>
+    match splitSlash cs with
+    | [] => [[c]]          -- unreachable: the result is never empty
+    | p :: ps => if c = '/' then [] :: p :: ps else (c :: p) :: ps
+
+/-- client-go `cache.SplitMetaNamespaceKey` -/
+def splitKey (s : Str) : Option (Str × Str) :=
+  match splitSlash s with
+  | [n] => some ([], n)
+  | [ns, n] => some (ns, n)
+  | _ => none
+
+inductive Res
+  /-- a Kubernetes object `ns/name` is read -/
+  | obj (ns name : Str)
+  /-- a local file is used -/
+  | file (path : Str)
+  /-- the cross-namespace check refused -/
+  | denied
+  /-- malformed name / unsupported protocol -/
+  | invalid
+deriving DecidableEq, Repr, Inhabited
+
+/-- cache.go:97 on an already split key -/
+def buildResourceNameK (dns : Str) (key : Option (Str × Str)) (allow : Bool) : Res :=
+  match key with
+  | none => .invalid
+  | some (ns, name) =>
+    if dns = [] then .obj ns name
+    else if ns = [] then .obj dns name
+    else if allow || ns = dns then .obj ns name
+    else .denied
+
+def buildResourceName (dns value : Str) (allow : Bool) : Res :=
+  buildResourceNameK dns (splitKey value) allow
+
+def isLowerAZ (c : Char) : Bool := 'a' ≤ c && c ≤ 'z'
+
+-- literals as explicit lists (kernel-evaluable)
+def sSep : Str := [':', '/', '/']
+def sFile : Str := ['f', 'i', 'l', 'e']
+def sSecret : Str := ['s', 'e', 'c', 'r', 'e', 't']
+def sAllow : Str := ['a', 'l', 'l', 'o', 'w']
+
+/-- `^([a-z]+)://(.*)$` (RE2: `.` does not match a newline); no match = ("secret", input) -/
+def getContentProtocol (s : Str) : Str × Str :=
+  let pre := s.takeWhile isLowerAZ
+  let rest := s.drop pre.length
+  if pre ≠ [] ∧ rest.take 3 = sSep ∧ !(rest.drop 3).contains '\n' then (pre, rest.drop 3)
+  else (sSecret, s)
+
+/-- `DynamicConfig` -/
+structure Bits where
+  crt : Bool
+  ca : Bool
+  pw : Bool
+  svc : Bool
+deriving DecidableEq, Repr, Inhabited
+
+def Bits.none : Bits := ⟨false, false, false, false⟩
+
+inductive Kind | crt | ca | pw | svc
+deriving DecidableEq, Repr, Inhabited
+
+def Bits.get (b : Bits) : Kind → Bool
+  | .crt => b.crt | .ca => b.ca | .pw => b.pw | .svc => b.svc
+
+inductive Getter | tls | ca | pw | svc | dh
+deriving DecidableEq, Repr, Inhabited
+
+/-- the `allowCrossNamespace` argument each getter passes to `buildResourceName` -/
+def getterAllow (b : Bits) : Getter → Bool
+  | .tls => b.crt
+  | .ca => b.ca
+  | .pw => b.pw
+  | .svc => b.svc
+  | .dh => true          -- GetDHSecretPath passes `true`; only called for the global ConfigMap
+
+/-- what a getter reads for `(defaultNamespace, value)` -/
+def getterResolve (g : Getter) (b : Bits) (dns value : Str) : Res :=
+  match g with
+  | .svc => buildResourceName dns value b.svc
+  | _ =>
+    let pc := getContentProtocol value
+    if pc.1 = sFile then
+      (if g = .ca ∧ pc.2 = [] then .invalid else .file pc.2)
+    else if pc.1 ≠ sSecret then .invalid
+    else buildResourceName dns pc.2 (getterAllow b g)
+
+/-! ## buildGlobalDynamic -/
+
+def lowerChar (c : Char) : Char := if 'A' ≤ c ∧ c ≤ 'Z' then Char.ofNat (c.toNat + 32) else c
+
+/-- `validateAllowDeny`: `strings.ToLower(value) == "allow"` (ASCII values; anything else,
+including a missing key, is deny) -/
+def allowOf (value : Str) : Bool := value.map lowerChar = sAllow
+
+/-- the four global keys, in the order crt, ca, passwd, services -/
+structure GlobalCM where
+  crt : Str := []
+  ca : Str := []
+  pw : Str := []
+  svc : Str := []
+deriving DecidableEq, Repr
+
+/-- global.go:397; `static` = `--allow-cross-namespace` -/
+def buildGlobalDynamic (static : Bool) (cm : GlobalCM) : Bits :=
+  { ca := static || allowOf cm.ca
+    crt := static || allowOf cm.crt
+    pw := static || allowOf cm.pw
+    svc := allowOf cm.svc }
+
+/-! ## Reference sites -/
+
+/-- `ConfigValue.NamespacedName` with a non-nil source in namespace `src` -/
+def namespacedName (src value : Str) : Option (Str × Str) :=
+  match splitSlash value with
+  | [n] => some (src, n)
+  | [ns, n] => some (ns, n)
+  | _ => none
+
+inductive Site
+  /-- Ingress `spec.tls[].secretName` (HTTP and TCP ingress): `addTLS` -/
+  | tls
+  /-- `auth-tls-secret` (Host scope, also the TCP variant): `setAuthTLSConfig` -/
+  | authTLS
+  /-- `secure-crt-secret` (Backend scope, Ingress or Service annotation) -/
+  | secureCrt
+  /-- `secure-verify-ca-secret` (Backend scope) -/
+  | secureCA
+  /-- `auth-secret` (Backend scope) -/
+  | authSecret
+  /-- `auth-url: svc://[ns/]name:port` (Backend scope; backend or frontend placement) -/
+  | authURL
+deriving DecidableEq, Repr, Inhabited
+
+/-- the resource kind the DOCUMENTATION assigns to the site (keys.md "Cross Namespace") -/
+def Site.kind : Site → Kind
+  | .tls => .crt
+  | .secureCrt => .crt
+  | .authTLS => .ca
+  | .secureCA => .ca
+  | .authSecret => .pw
+  | .authURL => .svc
+
+def Site.getter : Site → Getter
+  | .tls => .tls
+  | .secureCrt => .tls
+  | .authTLS => .ca
+  | .secureCA => .ca
+  | .authSecret => .pw
+  | .authURL => .svc
+
+/-- THE TABLE: `(defaultNamespace, name)` handed to the getter, from the namespace `src` of the
+annotated object and the raw value (`authURL`: the `[ns/]name` part of the URL).
+`none` = the site rejects the value before calling the getter. -/
+def siteArgs (s : Site) (src value : Str) : Option (Str × Str) :=
+  match s with
+  | .tls => some (src, value)
+  | .authTLS => some (src, value)
+  | .authSecret => some (src, value)
+  | .authURL => some (src, value)
+  -- backend.go:812/850: `namespace, name, err := crt.NamespacedName()` then
+  -- `GetTLSSecretPath(namespace, name, …)`: the TARGET namespace becomes the default namespace
+  | .secureCrt => namespacedName src value
+  | .secureCA => namespacedName src value
+
+/-- what the site makes the cache read (ignoring the shortcuts below) -/
+def siteResolve (s : Site) (b : Bits) (src value : Str) : Res :=
+  match siteArgs s src value with
+  | none => .invalid
+  | some (dns, name) => getterResolve s.getter b dns name
+
+/-- state of the haproxy model the two shortcut sites look at -/
+structure Existing where
+  /-- a userlist named after `ns/name` was already built (by any ingress) -/
+  userlist : Str → Str → Bool
+  /-- a backend for `ns/name:port` already exists (created by any ingress) -/
+  backend : Str → Str → Bool
+
+def Existing.none : Existing := ⟨fun _ _ => false, fun _ _ => false⟩
+
+/-- `buildBackendAuthHTTP`: `secretName` = value, or `src/value` when it has no "/" -/
+def authSecretName (src value : Str) : Str := if value.contains '/' then value else src ++ ['/'] ++ value
+
+/-- What object a site ends up USING (its content reaches the configuration):
+  * auth-secret: `Userlists().Find(listName)` comes first — an existing userlist is reused
+    without calling the cache;
+  * auth-url svc: ingress.go pre-builds the auth backend through `GetService` (checked, only when
+    the annotation is on the Ingress: `fromIngress`), but `setAuthExternal` then takes whatever
+    `Backends().FindBackend(ns, name, port)` returns;
+  * others: what the getter reads. -/
+def siteUses (s : Site) (b : Bits) (ex : Existing) (fromIngress : Bool) (src value : Str) : Res :=
+  match s with
+  | .authSecret =>
+    match splitKey (authSecretName src value) with
+    | some (ns, n) => if ex.userlist ns n then .obj ns n else siteResolve s b src value
+    | none => siteResolve s b src value
+  | .authURL =>
+    match namespacedName src value with
+    | none => .invalid
+    | some (ns, n) =>
+      let prebuilt := fromIngress && (match siteResolve s b src value with | .obj _ _ => true | _ => false)
+      if prebuilt || ex.backend ns n then .obj ns n
+      else (match siteResolve s b src value with | .obj _ _ => .invalid | r => r)
+  | _ => siteResolve s b src value
+
+/-- the object the cache is asked for while the site is evaluated (`none`: no getter call) -/
+def siteReads (s : Site) (b : Bits) (ex : Existing) (fromIngress : Bool) (src value : Str) : Option Res :=
+  match s with
+  | .authSecret =>
+    match splitKey (authSecretName src value) with
+    | some (ns, n) => if ex.userlist ns n then none else some (siteResolve s b src value)
+    | none => some (siteResolve s b src value)
+  | .authURL => if fromIngress then some (siteResolve s b src value) else none
+  | _ => some (siteResolve s b src value)
+
+/-- the namespace a result touches, if any -/
+def Res.ns? : Res → Option Str
+  | .obj ns _ => some ns
+  | _ => none
+
+def Res.foreignTo (r : Res) (src : Str) : Bool :=
+  match r with
+  | .obj ns _ => ns != src
+  | _ => false
+
+/-! ## Oracle (what the property demands of an observed run)
+
+`allowed`: the DOCUMENTED permission of the site's kind under the effective settings.
+`readForeign`: during the conversion of namespace `src`'s object the cache read an object of
+the site's kind in another namespace.  `usedForeign`: the part of the configuration that belongs
+to `src` differs between the world with and the world without the foreign object, or names an
+artifact of the foreign object. -/
+def kindName : Kind → String
+  | .svc => "service"
+  | _ => "secret"
+
+def oracle (siteName : String) (k : Kind) (allowed readForeign usedForeign panicked : Bool) : Option String :=
+  if panicked then some ("panic:" ++ siteName)
+  else if !allowed && readForeign then some ("foreign-" ++ kindName k ++ "-read:" ++ siteName)
+  else if !allowed && usedForeign then some ("foreign-" ++ kindName k ++ "-used:" ++ siteName)
+  else none
+
 end HapVerif.C09
